@@ -30,6 +30,15 @@ def strip_spans(x):
 def check_program(ctx, prog, rng, nlayouts, family, key=None):
     """Prints prog under nlayouts layouts, compiles each, compares with the model and with each other."""
     expected = expect.exp_program(prog)
+    # a fifth of the random programs get a file that holds nothing (empty, blanks, a comment) somewhere among their files: it
+    # declares nothing, and costs the files around it nothing
+    blank_at, blank_text = None, ""
+    if family == "random" and rng.random() < 0.2:
+        blank_at = rng.randrange(len(prog.files) + 1)
+        blank_text = rng.choice(["", "\n", "  \n\t\n", "// nothing here\n", "\r\n"])
+        expected = expected[:blank_at] + [{"path": "?", "module": None, "attrs": [], "contents": []}] + expected[blank_at:]
+        expected = [dict(e, path="string-%d" % i) for i, e in enumerate(expected)]
+        ctx.stats["programs_with_blank_file"] += 1
     dumps = []
     texts_all = []
     reqs = []
@@ -37,6 +46,8 @@ def check_program(ctx, prog, rng, nlayouts, family, key=None):
         style = STYLES[li % len(STYLES)] if li < len(STYLES) else "random"
         layouts = [printer.Layout(random.Random(rng.random()), style) for _ in prog.files]
         texts = printer.print_program(prog, layouts)
+        if blank_at is not None:
+            texts = texts[:blank_at] + [blank_text] + texts[blank_at:]
         texts_all.append((style, texts))
         reqs.append({"op": "compile", "files": texts, "want": ["ast", "diags"]})
     resps = ctx.worker.batch(reqs)
